@@ -153,9 +153,14 @@ func (r *c17Run) Main(s *sim.Sim) {
 	}
 	wg.Wait()
 	mu.Lock()
-	defer mu.Unlock()
+	answersCopy := map[float64]ans{}
+	for k, v := range answers {
+		answersCopy[k] = v
+	}
+	nIssued := len(issued)
+	mu.Unlock()
 	for i := range r.Probes {
-		a, ok := answers[float64(i)]
+		a, ok := answersCopy[float64(i)]
 		if !ok {
 			continue
 		}
@@ -163,7 +168,7 @@ func (r *c17Run) Main(s *sim.Sim) {
 			s.Nontrivial()
 			if out[i].err == nil && out[i].got == float64(i) {
 				s.Fail("C17", "expired-token-accepted", "client-accepts-superseded-token", "a response sealed with token %d, %v after that token was issued (lifetime %v, +25%% = %v, %d newer tokens exist), was delivered to the caller; %s/%d; channel tokens: %v",
-					a.token, a.age.Round(time.Millisecond), L, L+L/4, len(issued)-int(a.token), r.Cfg.Policy, r.Cfg.Mode, sc.VerifTokens())
+					a.token, a.age.Round(time.Millisecond), L, L+L/4, nIssued-int(a.token), r.Cfg.Policy, r.Cfg.Mode, sc.VerifTokens())
 				return
 			}
 			s.Probe("expired-token-rejected")
